@@ -28,6 +28,7 @@ import vspec         # noqa: E402
 import verus_run     # noqa: E402
 import kani_run      # noqa: E402
 import concretise    # noqa: E402
+import tv            # noqa: E402
 
 REPO = os.environ.get('VERIF_REPO', '/repo')
 ALL_PROPS = ['C%02d' % i for i in range(1, 21)]
@@ -322,6 +323,20 @@ def run_check(pid, tier, seed):
                 say(pid, 'UNDECIDED (exit 2): Kani harness %s did not run: %s' % (h['name'], h['detail'][-400:]))
                 return 2
     kani_fail = [h for h in kani_res if h['status'] == 'failed' and h['role'] == 'complete']
+    kani_bounded_fail = [h for h in kani_res if h['status'] == 'failed' and h['role'] == 'bounded']
+    if kani_bounded_fail:
+        say(pid, 'UNDECIDED (exit 2): a bounded Kani harness that validates an assumed specification failed: %s' % [h['name'] for h in kani_bounded_fail])
+        return 2
+
+    # thorough tier: translation validation of the rewrite rules (the rewritten sources must pass the repository's own tests)
+    tvres = None
+    if tier == 'thorough':
+        tvres = tv.run(REPO, scratch)
+        say(pid, 'translation validation of the rewrites: %d applications of %s, %d tests passed, %d failed'
+            % (tvres['rewrite_applications'], ','.join(tvres['rules']), tvres['tests_passed'], tvres['tests_failed']))
+        if not tvres['ok']:
+            say(pid, 'UNDECIDED (exit 2): the rewritten sources do not pass the test suite: %s' % tvres['tail'][-300:])
+            return 2
 
     # bounded stand-ins (every tier): clauses that could not be brought under contract are covered by a bounded native check of
     # the real function; a concrete failing input is a violation, labelled bounded; a pass is never counted as proved
@@ -411,6 +426,7 @@ def run_check(pid, tier, seed):
             'verus_runs': runs,
             'solver_ms_by_function': fn_times,
             'kani': [{k: h[k] for k in ('name', 'role', 'status', 'wall_s', 'bound')} for h in kani_res],
+            'translation_validation_of_rewrites': tvres,
             'native_replays': native,
             'bounded_standins': standin_res,
             'vacuity_probes': {'checked': probes_checked, 'verified_unexpectedly': vacuous},
